@@ -21,6 +21,7 @@
 From Ark Require Import Model.Base Model.Mask Model.Pool Model.Util Model.World Model.Run.
 From Ark Require Import Proofs.TableProofs Proofs.WF Proofs.StorageA Proofs.StorageBDefs.
 From Ark Require Import Proofs.StorageB_sb1 Proofs.StorageB_sb2 Proofs.StorageB_sb3 Proofs.StorageC Properties.Common.
+From Ark Require Import Proofs.Rel2Defs Proofs.Rel2Struct Proofs.Rel2Remove Proofs.Rel2SetRel Proofs.Rel2Ops Proofs.Rel2Maint.
 
 Theorem C01_initial_world : forall c,
   1 <= sc_cap c -> 1 <= sc_caprel c -> length (sc_kinds c) <= sc_bits c ->
@@ -156,7 +157,32 @@ Example C01_store_world_content :
   = (true, None, Some 0, Some 0, Some 22, Some 33, false, true, Some 0)%Z.
 Proof. vm_compute. reflexivity. Qed.
 
-Definition C01_all := (C01_invariant_reachable, C01_step_preserves_invariant, C01_initial_world, C01_create_empty, C01_create_with_components, C01_add, C01_remove,
+(** ** Worlds WITH relation components (relation tier): per-operation theorems for EVERY state
+    satisfying [St2] (storage + relation + cache invariant, Rel2Defs). Each says: the invariant is
+    preserved; the entity gets exactly the expected components, kept values, zeroed new components and
+    the relation targets assigned by the call; every other entity keeps its liveness, components,
+    values and relation targets ([r2c_others_same]); a failing call leaves all observables unchanged
+    ([r2c_rejected]) and fails only for the listed causes; a call meeting the documented preconditions
+    never fails. The statements are those of Rel2Ops.v / Rel2Maint.v / Rel2Remove.v / Rel2SetRel.v
+    (see there; too long to restate). What is still missing for "after any sequence of operations"
+    in relation worlds is the induction over histories (batch forms, filters and observers in
+    relation worlds are not yet covered), see C04. *)
+Definition C01_rel_new_entity := r2a_new_entity_spec.
+Definition C01_rel_add := r2a_add_spec.
+Definition C01_rel_remove := r2a_remove_spec.
+Definition C01_rel_exchange := r2a_exchange_spec.
+Definition C01_rel_create_entity := L_create_entity_spec2.
+Definition C01_rel_copy_entity := L_copy_entity_spec2_partial.
+Definition C01_rel_write := L_write_spec2.
+Definition C01_rel_remove_entity := r2c_remove_entity_spec.
+Definition C01_rel_set_relations := r2b_set_relations_spec_noobs.
+Definition C01_rel_never_fails := (r2a_new_entity_ok, r2a_add_ok, r2a_exchange_add_ok, r2a_remove_ok_noobs, r2a_exchange_ok_noobs,
+  r2c_remove_never_fails_noobs, r2b_set_relations_ok_noobs).
+Definition C01_rel_examples := (r2a_ex_by_theorem, r2c_ex_by_theorem, r2b_ex_by_theorem, r2d_ex_copy_by_theorem, r2d_ex_create_by_theorem).
+
+Definition C01_all := (C01_rel_new_entity, C01_rel_add, C01_rel_remove, C01_rel_exchange, C01_rel_create_entity, C01_rel_copy_entity,
+  C01_rel_write, C01_rel_remove_entity, C01_rel_set_relations, C01_rel_never_fails, C01_rel_examples,
+  C01_invariant_reachable, C01_step_preserves_invariant, C01_initial_world, C01_create_empty, C01_create_with_components, C01_add, C01_remove,
   C01_exchange, C01_write_through_pointer, C01_remove_entity, C01_copy_entity,
   C01_structure_creation_keeps_content, C01_components_are_the_mask).
 Print Assumptions C01_all.
